@@ -231,7 +231,12 @@ Keys == {
   Filter("odd", <<IP(NX)>>), Filter("odd", <<IP(SELF)>>), Filter("mod3", <<IP(B)>>), Filter("ident", <<IP(K("n"))>>),
   Assign(<<OP(C), OP(NY)>>, "pair", <<IP(A)>>), Assign(<<OP(NY), OP(C)>>, "pair", <<IP(A)>>), Op("filter", "odd", <<IP(A)>>, <<"x">>, <<>>, 0),
   Sink(<<IP(A)>>), Sink(<<IP(NX), IL(7)>>), SinkKw(<<IP(A)>>, <<"x">>),
-  Select(<<IP(C)>>, <<OP(C)>>), Assign(<<OP(D)>>, "inc", <<IP(C)>>), Filter("odd", <<IP(C)>>) }
+  Select(<<IP(C)>>, <<OP(C)>>), Assign(<<OP(D)>>, "inc", <<IP(C)>>), Filter("odd", <<IP(C)>>),
+  \* index keys: positions of tuple / list records and list-building output paths
+  Select(<<IP(<<PIdx(0)>>)>>, <<OP(C)>>), Select(<<IP(<<PIdx(1)>>), IP(<<PIdx(0)>>)>>, <<OP(C), OP(D)>>),
+  Apply("inc", <<IP(<<PIdx(1)>>)>>, <<OP(SELF)>>), Filter("odd", <<IP(<<PIdx(0)>>)>>),
+  Assign(<<OP(<<PKey("l"), PIdx(0)>>)>>, "inc", <<IP(A)>>), Apply("swap", <<IP(A), IP(B)>>, <<OP(<<PIdx(0)>>), OP(<<PIdx(1)>>)>>),
+  Select(<<IP(<<PKey("l"), PIdx(0)>>)>>, <<OP(C)>>) }
 Fail == {
   Apply("failodd", <<IP(A)>>, <<OP(C)>>), Assign(<<OP(C)>>, "failodd", <<IP(A)>>), Assign(<<OP(D)>>, "fail3", <<IP(B)>>),
   Filter("failodd", <<IP(A)>>), Apply("fail3", <<IP(A)>>, <<OP(SELF)>>),
